@@ -104,6 +104,13 @@ CONFIGS = {
     'asfeat4': dict(c=('-DAS_FEATURE_LEVEL=4',), asm=('-DAS_FEATURE_LEVEL=4',)),
 }
 
+# a thorough run re-evaluates a property in the other build configurations by re-running the check with 'default' bound to that configuration
+_alias = os.environ.get('VERIF_CONFIG_ALIAS')
+if _alias:
+    if _alias not in CONFIGS:
+        raise SystemExit('unknown configuration %s' % _alias)
+    CONFIGS['default'] = CONFIGS[_alias]
+
 _inst = None
 
 
